@@ -975,6 +975,22 @@ def variants(repo):
         Variant("spherical vectors repeated", T, sub("    evec1 = if_then_else(c2lsmall_neg, evec1, np.array([0.0, 1.0, 0.0]))", "    evec1 = if_then_else(c2lsmall_neg, evec1, np.array([1.0, 0.0, 0.0]))"), "O2/T7-eigen-solver-algebra"),
         Variant("alpha-rename eigen_sym33_non_unit", T, alpha_rename("eigen_sym33_non_unit"), None),
         Variant("reformat", T, reformat(), None),
+        # ---- row pivoting of the QR step (rules/C12_pivot.py): each of the three exclusive selections, read off the values
+        Variant("pivot row takes a component of row 0 when row 1 is the largest (C10-m7 style)", T,
+                sub("        +         if_then_else(k1_largest, crow1[2], 0.0) \\\n", "        +         if_then_else(k1_largest, crow0[2], 0.0) \\\n"), "O2/T7-eigen-solver-algebra"),
+        Variant("pivot scale takes the norm of row 0 when row 1 is the largest", T,
+                sub("                    + if_then_else(k1_largest, k1, 0.0) \\\n", "                    + if_then_else(k1_largest, k0, 0.0) \\\n"), "O2/T7-eigen-solver-algebra"),
+        Variant("remaining rows: row 2 twice when row 0 is the pivot", T,
+                sub("    row2 = np.array([row2_0, row2_1, row2_2])", "    row2 = np.where(k0_largest, crow2, crow0)"), "O2/T7-eigen-solver-algebra"),
+        Variant("selections not exclusive on ties (k1_largest without the strict test)", T,
+                sub("    k1_largest = k1gk2 & (~ k0gk1)", "    k1_largest = k1gk2 & (k0 <= k1)"), "O2/T7-eigen-solver-algebra"),
+        Variant("rows selected as a whole (np.where on rows, nested for the pivot; equivalent)", T, multi([
+            ("    k_row1 = np.array([k_row1_0, k_row1_1, k_row1_2])", "    k_row1 = np.where(k0_largest, crow0, np.where(k1_largest, crow1, crow2))"),
+            ("    row2 = np.array([row2_0, row2_1, row2_2])", "    row2 = np.where(k0_largest, crow1, crow0)"),
+            ("    row3 = np.array([row3_0, row3_1, row3_2])", "    row3 = np.where(~k2_largest, crow2, crow1)")]), None),
+        Variant("pivot scale by a nested select (equivalent)", T,
+                sub("    ki_ki = 1.0 / ( if_then_else(k0_largest, k0, 0.0)   \\\n                    + if_then_else(k1_largest, k1, 0.0) \\\n                    + if_then_else(k2_largest, k2, 0.0) )",
+                    "    ki_ki = 1.0 / if_then_else(k0_largest, k0, if_then_else(k1_largest, k1, k2))"), None),
         # ---- further violating variants (roles found on values)
         Variant("values assembled in another order than the vectors", T, sub("    evals = np.array([eval0, eval1, eval2])", "    evals = np.array([eval1, eval0, eval2])"), "O2/T9-eigen-roles"),
         Variant("vectors stacked as rows", T, sub("    evecs = np.column_stack((evec0,evec1,evec2))\n\n    #idx", "    evecs = np.array([evec0,evec1,evec2])\n\n    #idx"), "O2/T9-eigen-roles"),
